@@ -22,7 +22,9 @@
 // Every instrumented method that (transitively) touches the filesystem also starts with
 // verifEnter("<Method>", v.Root); defer verifExit("<Method>", v.Root).
 //
-// verifPoint / verifWriter / verifEnter / verifExit are provided by the harness (//go:build verif).  Standard library only.
+// In a method that has a parameter named ctx the calls are verifPointCtx(ctx, ..) / verifWriterCtx(ctx, ..).
+//
+// verifPoint(Ctx) / verifWriter(Ctx) / verifEnter / verifExit are provided by the harness (//go:build verif).  Standard library only.
 //
 // usage: instrument -in unix_volume.go -out instrumented.go [-labels labels.json] [-type UnixVolume]
 package main
@@ -193,18 +195,23 @@ type ctx struct {
 	method  string
 	recv    string
 	handles map[string]bool
+	hasCtx  bool // the method has a parameter named ctx: points carry it (verifPointCtx), so that the
+	// harness can tell two concurrent requests apart
 }
 
 func (in *instr) point(c *ctx, callee string) ast.Stmt {
 	label := c.method + "." + callee
 	in.labels[c.method] = append(in.labels[c.method], label)
-	return &ast.ExprStmt{X: &ast.CallExpr{
-		Fun: ast.NewIdent("verifPoint"),
-		Args: []ast.Expr{
-			&ast.BasicLit{Kind: token.STRING, Value: strconv.Quote(label)},
-			&ast.SelectorExpr{X: ast.NewIdent(c.recv), Sel: ast.NewIdent("Root")},
-		},
-	}}
+	args := []ast.Expr{
+		&ast.BasicLit{Kind: token.STRING, Value: strconv.Quote(label)},
+		&ast.SelectorExpr{X: ast.NewIdent(c.recv), Sel: ast.NewIdent("Root")},
+	}
+	fn := "verifPoint"
+	if c.hasCtx {
+		fn = "verifPointCtx"
+		args = append([]ast.Expr{ast.NewIdent("ctx")}, args...)
+	}
+	return &ast.ExprStmt{X: &ast.CallExpr{Fun: ast.NewIdent(fn), Args: args}}
 }
 
 // label for the header nodes of a statement ("" if none).
@@ -235,18 +242,21 @@ func (in *instr) wrapCopies(c *ctx, n ast.Node) {
 		}
 		if k, name := in.classify(call, c.recv, c.handles, true); k == 1 && name == "Copy" && len(call.Args) == 2 {
 			if inner, ok := call.Args[0].(*ast.CallExpr); ok {
-				if id, ok := inner.Fun.(*ast.Ident); ok && id.Name == "verifWriter" {
+				if id, ok := inner.Fun.(*ast.Ident); ok && (id.Name == "verifWriter" || id.Name == "verifWriterCtx") {
 					return true
 				}
 			}
-			call.Args[0] = &ast.CallExpr{
-				Fun: ast.NewIdent("verifWriter"),
-				Args: []ast.Expr{
-					&ast.BasicLit{Kind: token.STRING, Value: strconv.Quote(c.method)},
-					&ast.SelectorExpr{X: ast.NewIdent(c.recv), Sel: ast.NewIdent("Root")},
-					call.Args[0],
-				},
+			wargs := []ast.Expr{
+				&ast.BasicLit{Kind: token.STRING, Value: strconv.Quote(c.method)},
+				&ast.SelectorExpr{X: ast.NewIdent(c.recv), Sel: ast.NewIdent("Root")},
+				call.Args[0],
 			}
+			wfn := "verifWriter"
+			if c.hasCtx {
+				wfn = "verifWriterCtx"
+				wargs = append([]ast.Expr{ast.NewIdent("ctx")}, wargs...)
+			}
+			call.Args[0] = &ast.CallExpr{Fun: ast.NewIdent(wfn), Args: wargs}
 			in.nCopy++
 		}
 		return true
@@ -433,6 +443,13 @@ func main() {
 		fd := in.methods[n]
 		recv := recvOf(fd, *typeName)
 		c := &ctx{method: n, recv: recv, handles: in.findHandles(fd, recv)}
+		for _, f := range fd.Type.Params.List {
+			for _, nm := range f.Names {
+				if nm.Name == "ctx" {
+					c.hasCtx = true
+				}
+			}
+		}
 		in.block(c, fd.Body)
 		if in.interest[n] {
 			// verifEnter("M", v.Root); defer verifExit("M", v.Root): lets the harness wait until no
